@@ -21,6 +21,7 @@ RULE = ('fault enumeration over documents of four generated schema families and 
         'the limits module refuses (0, negative, non-integers) were attempted, one process per limit setting; each input goes through XMLResource(), '
         'is_valid, iter_errors, decode strict and decode lax; a case = (input, api); distinct non-trivial = distinct (source, '
         'mutation kind, value class, api) combinations on mutated inputs')
+RULE += (' ' + "A typed-role catalogue puts overflowing and hostile lexical forms at every role of every built-in family (plain / fixed / default element and attribute, list item, union member, identity field); every entry point is also driven with validation='skip'.")
 ASSUMPTIONS = [
     'library exception = isinstance(e, xmlschema.XMLSchemaException); anything else crossing the API boundary is foreign',
     'lax mode (iter_errors, decode(validation="lax")) must not raise at all for a well-formed document',
